@@ -29,6 +29,7 @@ type Case struct {
 	Chan   *ChanCase  `json:"chan,omitempty"`
 	Family []*gg.Case `json:"family,omitempty"` // one graph under every combination of branch outcomes
 	Rerun  []*gg.Val  `json:"rerun,omitempty"`  // further inputs on which the SAME compiled runnable of Graph is invoked again
+	Shared bool       `json:"shared,omitempty"` // the GraphBranch values of Graph were added to a Workflow before (sharedbranch.go)
 }
 
 type ChanOp struct {
@@ -120,6 +121,10 @@ func generate(r *lib.Rng, tier string, i int) *Case {
 		return &Case{Graph: c, Rerun: genRerunInputs(r, c.Input)}
 	case x >= 27:
 		return &Case{Family: genFamily(r, o, true, famLimit)}
+	case x == 24:
+		// a flat Graph whose branch values a Workflow has used before
+		c := genX(r, false, o.MaxNodes)
+		return &Case{Graph: c, Shared: sharedApplicable(c)}
 	case x >= 24:
 		return &Case{Graph: genX(r, x > 24, o.MaxNodes)}
 	case x >= 22:
@@ -358,8 +363,16 @@ func (engine) Run(c any) lib.Result {
 	if len(cs.Rerun) > 0 {
 		return runRerun(g, cs.Rerun)
 	}
-	obs := runResampled(g)
+	var obs *gg.Obs
+	if cs.Shared && sharedApplicable(g) {
+		obs = runShared(g)
+	} else {
+		obs = runResampled(g)
+	}
 	res := lib.Result{Obs: obs, Tags: append(gg.Tags(g, obs), "kind:graph")}
+	if cs.Shared {
+		res.Tags = append(res.Tags, "shape:shared-branch-value")
+	}
 	if obs.Class == "compile" && strings.Contains(obs.ErrMsg, "DAG invalid") && strings.Contains(obs.ErrMsg, "has loop") {
 		// validateDAG rejected the graph: the model's validate_dag must reject it too
 		res.Tags = append(res.Tags, "compile:loop")
